@@ -32,6 +32,7 @@ def run_harness(env, pkg, func, args, assume=(), unwind=64, merge=False, timeout
     """symbolically execute harness `func` on args (Str / terms / python values); every outcome must be `return 0`."""
     I, ctx = env.interp(merge=merge, unwind=unwind, timeout_ms=timeout_ms, **(interp_kw or {}))
     I.track_globals = True
+    I.stats['runs'] += 1
     for c in assume:
         ctx.assume(c)
     st = I.new_state()
